@@ -973,7 +973,13 @@ pub fn run_child(args: &Args) {
         viols.push(Viol { prop: "C06|C20|C04", sig, msg: format!("the {who} thread stopped: {msg}"), detail: json!({}) });
     }
     if let Some(d) = deadlock {
-        viols.push(Viol { prop: "C20", sig: "stall:all-store-threads-parked".into(), msg: d, detail: json!({"config": sh.plan.cfg.json()}) });
+        // verified explanation of the known finding: nothing is selectable because the level-0
+        // compaction needs more inputs than max_compaction_files allows
+        let levels = kvs.verif_tree().verif_levels();
+        let needed = crate::e1::l0_compaction_inputs(&levels);
+        let known = needed > sh.plan.cfg.max_files && kvs.verif_tree().verif_should_stall();
+        let sig = if known { "stall:l0-compaction-exceeds-max-compaction-files" } else { "stall:all-store-threads-parked" };
+        viols.push(Viol { prop: "C20", sig: sig.into(), msg: format!("{d}; the level-0 compaction needs {needed} inputs, max_compaction_files = {}", sh.plan.cfg.max_files), detail: json!({"config": sh.plan.cfg.json()}) });
     }
     let mut inconclusive: Vec<String> = Vec::new();
     if hang {
@@ -1031,6 +1037,10 @@ pub fn run_child(args: &Args) {
     }
     let sample: Vec<String> = all.iter().filter(|r| r.round == 1).take(12).map(show_rec).collect();
     finish_child_full(&out, &sh.plan, &cov, &viols, nontrivial, hh.get(), &inconclusive, &sample);
+    if std::env::var("VH_KEEP").is_ok() && !viols.is_empty() {
+        eprintln!("kept {}", root.display());
+        std::process::exit(0);
+    }
     let _ = std::fs::remove_dir_all(&root);
     std::process::exit(0);
 }
